@@ -154,6 +154,17 @@ pub fn apply_edit(v: &Value, e: &TreeEdit) -> Option<(Value, String)> {
             forced_kind = 200 + e.kind % 2;
         }
     }
+    if e.site == u16::MAX - 1 {
+        // dedicated site: the first string below a member whose name starts with "./" (a digest of an artifact that is
+        // recorded under a second, non-normalised spelling); one character in the middle is changed
+        match all.iter().position(|(p, k)| matches!(k, SiteKind::Str) && p.iter().any(|s| matches!(s, Step::Key(n) if n.starts_with("./")))) {
+            Some(pos) => {
+                i = pos;
+                forced_kind = 10;
+            }
+            None => return None,
+        }
+    }
     let e = &TreeEdit { site: e.site, kind: forced_kind, arg: e.arg.clone() };
     let (path, kind) = all[i].clone();
     let mut out = v.clone();
